@@ -2,7 +2,6 @@
 from core import AnchorMissing, Origins, atom_match
 
 LEVEL = "other"
-CLAIMED = False   # until the D8 triage (writer shareable between threads) is settled
 EXPLANATION = """
 Protocol shape of fuel_core_services::seqlock, for all control-flow paths (not thread schedules):
 (1) SeqLockWriter::write: sequence.fetch_add(1, AcqRel) then fence(Acquire) dominate the catch_unwind
@@ -144,7 +143,7 @@ def check(ctx):
         # Structurally: it has a field whose type is never Sync (PhantomData<Cell<_>> / PhantomData<*const _> / Cell), or write takes &mut self.
         sig = F.fn_item(f"{W}::write", "fuel_core_services")[0].get("sig", "")
         mut_self = "&mut " in sig.split(",")[0] or "&'_ mut" in sig.split(",")[0]
-        not_sync = [n for n, t in ftys if any(k in t for k in ("core::cell::Cell<", "core::cell::UnsafeCell<", "*const ", "*mut ", "core::cell::RefCell<")) and "Arc<" not in t]
+        not_sync = [n for n, t in ftys if any(k in t for k in ("::cell::Cell<", "::cell::UnsafeCell<", "*const ", "*mut ", "::cell::RefCell<")) and "Arc<" not in t]
         ctx.add("4.writer-not-shareable-between-threads", "TYPE", bool(mut_self or not_sync),
                 "write() cannot be entered by two threads at once: it takes &mut self or the writer is !Sync" +
                 ("" if (mut_self or not_sync) else f"; today write takes `{sig.split(',')[0]}` and the fields {ftys} make SeqLockWriter Sync, so two threads sharing &SeqLockWriter can both be inside write(): "
